@@ -9,7 +9,8 @@ SHARDS = {"quick": 8, "thorough": 16}
 RULE = (
     "Rule-based state machine over a real stepped FlumineSimulation with 1-3 strategies, 1-2 clients and 2-4 "
     "selections: placements, replacements (new order objects entering the blotter from the execution layer), "
-    "cancels, updates, fills, lapses, voids, closure. A shadow list of every order accepted by place_order is kept; "
+    "cancels, updates, fills, lapses, voids, closure, data arriving again for the closed market (re-opened, further "
+    "orders, second closure). A shadow list of every order accepted by place_order is kept; "
     "after every step each shadow order must appear exactly once in the blotter and in each view (strategy, strategy "
     "+ selection, client, client + strategy, trade), lookups by id / bet id return the same object, live_orders "
     "contains every order that is not complete and never regains an order, and status / matched-only filters (all "
@@ -24,7 +25,7 @@ CHECKS = ("blotter",)
 
 
 def sub_machine(col, budget, seed, tier, shard, nshards):
-    M.run(col, SimWorld, CHECKS, M.base_cfg(limits="none", handicaps=True, market_limit=True), budget, 30 if tier == "quick" else 60, seed, tier, "blotter", rule_weights={"resubmit": 2})
+    M.run(col, SimWorld, CHECKS, M.base_cfg(limits="none", handicaps=True, market_limit=True), budget, 30 if tier == "quick" else 60, seed, tier, "blotter", rule_weights={"resubmit": 2, "reopen": 3})
 
 
 # ---- live mode: blotter coherence after every step of a generated live schedule (adoptions, replacements) ----
